@@ -202,6 +202,9 @@ def main():
                                     parts = lit(P) + ["R %d %d %s" % (a, b, xa)] + lit(Q) + ["R %d %d %s" % (c, d, ya)] + lit(R)
                                     astp = " ".join(". " + p_ for p_ in parts[:-1]) + " " + parts[-1]
                                     tag = "family-two-counted-repeats" + (":lazy" if lazy else "")
+                                    if lazy and xs == "." and b < 0 and P and not Q and c == 0 and not R:
+                                        # a lazy unbounded dot run after a prefix is a CHAINING point (re.c: yr_re_ast_split_at_chaining_point); here everything after it can match empty
+                                        tag += ":tail-after-chaining-point-can-be-empty"
                                     fam.append(prog(pid(), src, astp, "s", "", "", tag))
                                     if not lazy and xs == "." and ys == ".":
                                         fam.append(prog(pid(), src, astp, "m", "", "", tag))
